@@ -107,7 +107,9 @@ func safeEval(p *prop, op string, args []string) string {
 	}()
 	to := p.timeout
 	if to == 0 {
-		to = 5 * time.Second
+		// (pure functions return in micro- or milliseconds; the margin is for a machine so busy that this process
+		// is not scheduled for seconds - an endless loop is still an endless loop after eight of them; ./check runs a HANG again, alone, before believing it)
+		to = 8 * time.Second
 	}
 	select {
 	case r := <-ch:
